@@ -113,6 +113,18 @@ CHECKS.update({
         "Trusted: the working tree's PeeweeStorage as the legacy writer. Legacy files written by other versions are not available offline.",
         "DESIGN.md 4 C14",
     ),
+    "C11": (
+        "bounded-exhaustive enumeration of query programs from the grammar (AST-first) x separator-spacing styles, reference parser + reference evaluator",
+        "All calls of probe functions with 0-3 arguments over 15 argument shapes (ints, strings containing commas/brackets/'='/escaped quotes, empty and nested lists/dicts, calls, variables) x 8 contexts (top level, list element, dict value, argument, bound/rebound/aliased variables) x all 40 spacing styles; all list/dict literals of depth <=2; every registered built-in with well-typed argument pools given as literal, variable and nested call. Each printed program is re-parsed by an independent reference parser to the same AST, run through aw_query.query2.query and compared with a reference evaluator over the AST (~1.06 M executions quick).",
+        "Trusted: the 90-line reference parser/evaluator. Built-ins are compared with the same aw_transform function applied to the reference argument values. Text outside the stated grammar is C17's subject.",
+        "DESIGN.md 3.5, 4 C11",
+    ),
+    "C17": (
+        "exhaustive enumeration of all strings up to a length bound over a token alphabet, all single-edit corruptions of a program corpus, and all arity/type combinations of every built-in",
+        "ALL strings of <=5 symbols over an 18-symbol alphabet (letters, digit, both quotes, all brackets, separators, space, backslash, a function name, a non-ASCII digit) in three contexts (6.0 M texts), every single-edit corruption of a 30-program corpus, and every built-in with 0..arity+1 arguments x 6 top-level types per position are run under a 5 s alarm; outcome must be a value or a QueryException subclass (class checked for the resolution part); exceptions raised while a transform/q2_* body executes are counted as deep data-shape errors and not flagged.",
+        "Trusted: the exception-origin classification by traceback frames. Strings longer than the bound are covered only through the corruption corpus.",
+        "DESIGN.md 3.5, 4 C17",
+    ),
 })
 
 NOT_YET = {}
